@@ -12,6 +12,7 @@ Harness protocol (duck-typed):
     h.check(world)              invariants + fault menu in the reached state; raise Violation
     h.canon(world)   -> hashable/marshal-able canonical state
     h.outcome(world) -> hashable observable outcome (vacuity guard), optional
+    h.known(world)   -> Violation(known=<finding id>) if the last op re-observed a listed finding, optional
 
 Levels of the BFS can be expanded by several harness worker processes (``procs``): each worker expands a slice
 of the frontier against the set of states known at the start of the level; the parent merges the slices in
@@ -25,6 +26,12 @@ import traceback
 from concurrent.futures import ProcessPoolExecutor
 
 from .report import Violation, HarnessError
+from .seams import reset_library
+
+
+def fresh(h):
+    reset_library()
+    return h.fresh()
 
 
 def digest(k):
@@ -36,7 +43,7 @@ def digest(k):
 
 def run_history(h, history, check_every=True):
     """Replay ``history`` from the initial state with all checks; raises Violation at the first failure."""
-    w = h.fresh()
+    w = fresh(h)
     if check_every:
         _guard(h.check, w)
     for op in history:
@@ -44,6 +51,16 @@ def run_history(h, history, check_every=True):
         if check_every:
             _guard(h.check, w)
     return w
+
+
+def replay_case(h, case):
+    """Replay a case written by explore(): optionally an earlier execution first (state-leak cases)."""
+    if case.get('after') is not None:
+        try:
+            run_history(h, case['after'], check_every=False)
+        except Violation:
+            pass
+    return run_history(h, case['history'])
 
 
 def _guard(fn, *a):
@@ -64,23 +81,30 @@ _G = {}
 def _expand(histories):
     """Expand every history in the slice by every enabled op. Runs in the parent or in a forked worker."""
     h, seen, dedup, has_outcome = _G['h'], _G['seen'], _G['dedup'], _G['has_outcome']
+    has_known = hasattr(h, 'known')
     local = set()
     new_states = []       # (digest, history)
     viols = []            # (history, Violation)
     outcomes = set()
     transitions = 0
+    prev = None
     for hist in histories:
-        w = h.fresh()
+        w = fresh(h)
         for op in hist:
             h.apply(w, op)
         ops = list(h.ops(w))
         for op in ops:
-            w = h.fresh()
+            w = fresh(h)
             try:
                 for p in hist:
                     h.apply(w, p)
             except Violation as v:
-                raise HarnessError(f'prefix {hist} failed on re-execution: {v.msg}')
+                # the same prefix passed on fresh objects before: something outside the objects remembers
+                # earlier executions (state leaking between models); reported with the execution that ran before
+                viols.append((hist, ('a history that passed on fresh objects fails when re-executed on fresh '
+                                     f'objects (state leaks between executions): {v.msg}', v.expected, v.observed,
+                                     None), prev))
+                continue
             transitions += 1
             try:
                 _guard(h.apply, w, op)
@@ -89,10 +113,16 @@ def _expand(histories):
                 if new:
                     _guard(h.check, w)
             except Violation as v:
-                viols.append((hist + [op], (v.msg, v.expected, v.observed, v.known)))
+                viols.append((hist + [op], (v.msg, v.expected, v.observed, v.known), None))
+                prev = hist + [op]
                 continue
+            if has_known:
+                kv = h.known(w)
+                if kv is not None:      # a listed finding re-observed: recorded, but the state is still expanded
+                    viols.append((hist + [op], (kv.msg, kv.expected, kv.observed, kv.known), None))
             if has_outcome:
                 outcomes.add(hash(h.outcome(w)))
+            prev = hist + [op]
             if new:
                 local.add(k)
                 new_states.append((k, hist + [op]))
@@ -110,7 +140,7 @@ def explore(ctx, h, leg, max_depth, dedup=True, max_states=None, case_extra=None
         c['history'] = list(hist)
         return c
 
-    w0 = h.fresh()
+    w0 = fresh(h)
     try:
         _guard(h.check, w0)
     except Violation as v:
@@ -138,8 +168,11 @@ def explore(ctx, h, leg, max_depth, dedup=True, max_states=None, case_extra=None
             transitions += trans
             ctx.traces += trans
             ctx.outcomes |= outcomes
-            for hist, (msg, exp, obs, known) in viols:
-                ctx.report(case(hist), Violation(msg, exp, obs, known))
+            for hist, (msg, exp, obs, known), after in viols:
+                c = case(hist)
+                if after is not None:
+                    c['after'] = after
+                ctx.report(c, Violation(msg, exp, obs, known))
             if ctx.full():
                 aborted = True
             for k, hist in new_states:
